@@ -5,6 +5,36 @@ TRUST = ("Trusted: rustc nightly MIR construction and callee resolution; pegv's 
          "combinators; dependencies (proc_macro2, quote, anyhow, crc, colored, nohash-hasher) not analysed internally. ")
 
 CHECKS = {
+ "C03": {
+  "category": "other",
+  "technique": "finite-domain evaluation of the arity lattice, per-arity template tables read off quote! pushes, declared-type comparison (rustc-resolved ADTs vs an independent model of the documented mapping), rustc as witness on a corpus",
+  "text": "Generator level (all grammars): combine_arities_for_choice equals the join of One<Optional<Multiple on all 9 pairs, set_arity_to_optional/multiple are the documented maps, the per-arity (type wrapper, value wrapper, default) tables form consistent triples, Box/enum wrapping of values is decided by the same merged descriptor as the declaration, no template emits `unsafe`, the 'rule is cached' decision agrees across its three sites. Instance level (1157 rules: workspace + corpus): the item rustc recorded for every rule (alias/unit/struct fields/enum variants with resolved types) equals what an independent model written from the prose derives from the grammar text. Compilation: a corpus of accepted grammars built by the tree's own generator under three settings type-checks under #![forbid(unsafe_code)]; a corpus failure while the repository builds is reported as a violation.",
+  "note": TRUST + "'Every accepted grammar compiles' is witnessed on the corpus, not proven. Keywords self/Self/super/crate are known findings (D5).",
+ },
+ "C11": {
+  "category": "other",
+  "technique": "narrow semantic lint over the pretty-error code: unwrap/expect on search results without a dominating not-found test",
+  "text": "ONLY the 'never panics' clause is decided: in PrettyParseError::from_parse_error, the line iterator and Display no unwrap/expect is applied to the result of a search/iteration whose emptiness is not excluded, and there is no explicit panic. The genuine defect it found (empty text) is fixed in /repo. Line, column and caret placement are arithmetic over runtime values; they are not decided and not claimed (a seeded column error is recorded as not caught for that reason).",
+  "note": TRUST + "Clause-level claim; see DESIGN.md C11.",
+ },
+ "C12": {
+  "category": "other",
+  "technique": "finite-function extraction (match tables), forward symbolic evaluation of all 32 digit-presence paths of the unicode escape decoder, grammar-of-grammars token-atomicity lint, header CRC",
+  "text": "Escape decoding is decided exactly (6 simple escapes against the spellings read from grammar.ebnf; \\xXX = d1*16+d2; unicode escapes = left fold acc*16+digit over present digits on all 32 paths, from_u32 None -> error; HexChar = [0-9a-fA-F]); Rule::flags maps each directive spelling to exactly its flag; the token rules of grammar.ebnf are @no_skip_ws (no skipping inside a token); the shipped front end's header CRC equals CRC-32 of today's grammar.ebnf. The front end's structure (precedence, brackets, quote styles) is decided by lifting generated.rs and comparing with grammar.ebnf once the lifter covers it (C12.front).",
+  "note": TRUST + "That grammar.ebnf denotes the prose of the syntax reference is not decided beyond the token rule.",
+ },
+ "C13": {
+  "category": "other",
+  "technique": "generator-level identity-flow rule (delegation with own arguments), read-set of the include lookup, settings threading",
+  "text": "For all grammars: every Codegen method of IncludeRule returns the result of the same method on the included rule's `definition` called with the caller's own arguments; the lookup reads only `name` and `definition` of the found rule (its directives cannot matter); Group delegates identically; settings are handed on unchanged (shared with C08.thread). Hence `>R` and the parenthesised body of R are compiled by the same code with the same inputs. Twin grammars (include_a / include_b) are in the corpus for the lifter comparison.",
+  "note": TRUST + "Equality of the two generated parsers on all inputs is argued from identical generation, not tested.",
+ },
+ "C18": {
+  "category": "other",
+  "technique": "dominance of file mutations by success edges, control dependence of the up-to-date shortcut, propagation of fallible steps",
+  "text": "Freshness over histories is NOT decided. Decided are necessary structural clauses of Compile::run_on_single_file / run_recursively: the only file-mutating call is dominated by the success of Grammar::from_str and generate_code and nothing else in the crate mutates files; the early return is control-dependent on equality of the destination's leading bytes with a value data-dependent on grammar text and prefix, and the written bytes start with that same value; all fallible steps are ?-propagated; directory mode calls the same routine for .ebnf entries and propagates.",
+  "note": TRUST + "Histories (stale-prefix, CRC collisions, settings not in the key) are out of reach and documented in DESIGN.md §4.",
+ },
  "C04": {
   "category": "other",
   "technique": "unsafe-precondition discharge from dominating path conditions (MIR), who-may-call, constructor/cursor invariant, panic inventory",
@@ -81,4 +111,4 @@ CHECKS = {
 
 _PENDING = "check not built yet in this round (design in DESIGN.md §3); no verdict is claimed until it is"
 NOT_APPLICABLE = {pid: _PENDING for pid in
-  ["C01","C02","C03","C11","C12","C13","C17","C18"]}
+  ["C01","C02","C17"]}
